@@ -7,6 +7,7 @@ import numpy as np
 from hypothesis import strategies as st
 
 from .. import streamgen as sg
+from ..util import sint
 from ..core import SKIP, Sub, canon, jsonable
 
 ID = "C05"
@@ -123,7 +124,7 @@ def observe(results):
         mask = np.asarray(r.subset_indexes).astype(bool).ravel().tolist()
         if res:
             cr = res[0]
-            fl = [None if m else int(d) for d, m in zip(np.asarray(np.ma.getdata(cr.results)).ravel().tolist(),
+            fl = [None if m else sint(d) for d, m in zip(np.asarray(np.ma.getdata(cr.results)).ravel().tolist(),
                                                         np.asarray(np.ma.getmaskarray(cr.results)).ravel().tolist())]
             out.append({"stream": r.stream_id, "test": f"{cr.package}.{cr.test}", "mask": mask, "flags": fl})
         else:
@@ -248,7 +249,7 @@ def check_qcconfig(case, rec, info):
         it = iter(fl)
         for m in mask:
             want.append(next(it) if m else 2)
-        hv = [None if mm else int(d) for d, mm in zip(np.asarray(np.ma.getdata(have)).ravel().tolist(),
+        hv = [None if mm else sint(d) for d, mm in zip(np.asarray(np.ma.getdata(have)).ravel().tolist(),
                                                       np.asarray(np.ma.getmaskarray(have)).ravel().tolist())]
         if hv != want:
             rec.fail(site, f"{mod}.{test}: flags differ from the direct call on the window rows", expected=want, got=hv,
